@@ -105,6 +105,11 @@ def readCall (h : RHandle) (cv : Conv) (ty : Ty) (n : Nat) : RHandle × List Int
   let (h1, d, cnt) := h.read (chunkOf ty) n
   (h1, d.map (toCaller cv ty), cnt)
 
+/-- `sf_seek` on a GSM handle: the first statement after the handle validation is
+    `if (! psf->sf.seekable) { psf->error = SFE_NOT_SEEKABLE ; return PSF_SEEK_ERROR ; }` and `gsm610_init` cleared
+    `sf.seekable`: whatever offset and whence, the handle is untouched, the result is −1 and an error is set -/
+def sfSeek (h : RHandle) (_offset : Int) (_whence : Nat) : RHandle × Int × Bool := (h, -1, true)
+
 /-! ## `gsm610_seek` as written (dead code through the public API; reachable only by calling `psf->seek` directly) -/
 
 /-- codec-level read state the C keeps: `blockcount`, `samplecount`, the private buffers, the file position -/
